@@ -295,7 +295,14 @@ func suiteC13(s *Suite, rng *Rng, tier string) {
 	if tier != "thorough" {
 		step = 7
 	}
+	var vs []int64
 	for v := int64(-6); v <= 4*limit+14; v += step {
+		vs = append(vs, v)
+	}
+	for d := int64(-10); d <= 10; d++ { // the end of the table, always
+		vs = append(vs, 4*limit+d)
+	}
+	for _, v := range vs {
 		var out V
 		r, err := func() (r []*gbig.Int, err error) {
 			defer func() {
@@ -305,6 +312,9 @@ func suiteC13(s *Suite, rng *Rng, tier string) {
 			}()
 			return table.Split(bi(v))
 		}()
+		if out != nil && v >= 0 && v%4 == 2 && v <= 4*limit+2 {
+			s.Violate("C13:table-split-panicked", fmt.Sprintf("GenerateSquaresTable(%d).Split(%d) panics although the table is meant to cover the value", limit, v), L{limit, v})
+		}
 		if out == nil {
 			if err != nil {
 				out = errV()
